@@ -14,6 +14,7 @@
 
 mod ctx;
 mod gen;
+mod jtok;
 mod rng;
 mod same;
 mod spell;
